@@ -486,7 +486,26 @@ pub fn drive_deriv(seed: u64, rounds: usize, sink: &mut Sink) -> usize {
     let mut nontrivial = 0;
     for _ in 0..rounds {
         for len in 1..=9usize {
-            let a = coeffs(&mut rng, len);
+            let mut a = coeffs(&mut rng, len);
+            if rng.below(4) == 0 {
+                // the ends of the range: subnormal, smallest normal, its neighbours, largest values whose products still fit,
+                // values whose products overflow (out of the clause's scope, but no panic), signed zeros
+                for v in a.iter_mut() {
+                    if rng.bool() {
+                        let s = if rng.bool() { 1.0 } else { -1.0 };
+                        *v = s * match rng.below(8) {
+                            0 => f64::from_bits(1 + rng.below(1 << 52)),
+                            1 => f64::from_bits(1 + rng.below(16)),
+                            2 => f64::MIN_POSITIVE,
+                            3 => f64::MIN_POSITIVE * (1.0 + rng.unit()),
+                            4 => f64::MAX / 8.0 * rng.unit(),
+                            5 => f64::MAX / 8.0,
+                            6 => f64::MAX * rng.unit(),
+                            _ => 0.0,
+                        };
+                    }
+                }
+            }
             let r: Vec<f64> = crate::with_poly_type!(len, T, { T::from_flat(&a).derivative().flat() });
             sink.ev(json!({"ev":"deriv","type":format!("Poly{}", len - 1),"a":jbs(&a),"r":jbs(&r)}));
             if len > 2 {
